@@ -142,7 +142,7 @@ type c11Job struct {
 func c11(args []string) {
 	c := chk.New("C11", "fault_enumeration", args)
 	c.Build(false)
-	c.Rule("histories that split an execution into several runs: RunTo(prefix) then Run; complete run, delete a downstream-closed set of outputs (with or without their audit files; the first run slow so that rewritten records are shorter), re-run; run killed at enumerated hook crash points, cleanup, resume; oracle: for every output the audit tree after the history equals the tree of an uninterrupted run of the same workflow (ids and times excluded), every embedded ancestor record is identical (ids included) to the ancestor's own .audit.json on disk, and loading every audit file through the library and writing it back loses nothing (in-process round trip in a copy of the directory); directed topologies with a directory output and with a gathering task that has an ordinary and a joined in-port (repeated, map order). distinct_nontrivial = distinct (workflow, history) in which >= 1 task was taken from disk and >= 1 task was executed in the last run")
+	c.Rule("histories that split an execution into several runs: RunTo(prefix) then Run; complete run, delete a downstream-closed set of outputs (with or without their audit files; the first run slow so that rewritten records are shorter), re-run; run killed at enumerated hook crash points, cleanup, resume; oracle: for every output the audit tree after the history equals the tree of an uninterrupted run of the same workflow (ids and times excluded), every embedded ancestor record is identical (ids included) to the ancestor's own .audit.json on disk, and loading every audit file through the library and writing it back loses nothing (in-process round trip in a copy of the directory); directed topologies with a directory output and with a gathering task that has an ordinary and a joined in-port (repeated, map order), with two differently tagged branches zipped by one process, and with a file that is tagged, processed and tagged again. distinct_nontrivial = distinct (workflow, history) in which >= 1 task was taken from disk and >= 1 task was executed in the last run")
 	c.Assume("histories whose recovery does not converge (C03's known finding: kill between the renames of a multi-file task) are not judged here", "ids and absolute times of re-executed tasks are excluded from the comparison with the uninterrupted run")
 	rng := c.Rand("c11")
 	var jobs []*c11Job
@@ -201,8 +201,8 @@ func c11(args []string) {
 	}
 	// directed topologies: a task whose output is a directory, and a gathering task with an ordinary and a joined
 	// in-port (which in-port the library looks at first is a matter of map order, so that one is repeated)
-	for _, k := range []string{"dirout", "gather"} {
-		for r := 0; r < map[string]int{"dirout": 2, "gather": c.Pick(8, 24)}[k]; r++ {
+	for _, k := range []string{"dirout", "gather", "tagzip", "tagtwice"} {
+		for r := 0; r < map[string]int{"dirout": 2, "gather": c.Pick(8, 24), "tagzip": c.Pick(4, 12), "tagtwice": 2}[k]; r++ {
 			tc := topoCase{k, gen.ShapePlain, false, 2}
 			jobs = append(jobs, &c11Job{kind: "runto", tc: &tc, target: []string{"A"}, cfg: Cfg{Buf: 3, Procs: 2}, label: "RunTo A then Run (" + k + ")"})
 		}
